@@ -491,9 +491,13 @@ def _clean_up_state(state: State) -> None:
             and flow_state_uid
             in state.flow_states[flow_state.parent_uid].child_flow_uids
         ):
-            state.flow_states[flow_state.parent_uid].child_flow_uids.remove(
-                flow_state_uid
-            )
+            # A flow can list a child more than once (e.g. it activated it twice)
+            parent_flow_state = state.flow_states[flow_state.parent_uid]
+            parent_flow_state.child_flow_uids = [
+                uid
+                for uid in parent_flow_state.child_flow_uids
+                if uid != flow_state_uid
+            ]
         flow_states = state.flow_id_states[state.flow_states[flow_state_uid].flow_id]
         flow_states.remove(flow_state)
         del state.flow_states[flow_state_uid]
